@@ -396,7 +396,7 @@ class ConvModel(object):
                 record(k, obs_k, w.log, "kill")
             # the same points with an I/O error (an ordinary exception: the converter's own handlers run) instead of a kill;
             # only the state invariants I1/I2 are asserted on what such a run leaves behind
-            if self.tier == "thorough" or (self.depth_now == 0 and event.get("again") is None):
+            if (self.tier == "thorough" and self.depth_now <= 1) or (self.depth_now == 0 and event.get("again") is None):
                 for k in range(K):
                     histories.restore(root, snap)
                     obs_k, wk = self._run(root, event, k, kind="error")
@@ -433,8 +433,8 @@ def _mk(kind, source="bin", apbase=None):
             if source == "meta-shorter":
                 depth = 1
         else:
-            depth, faults_, cap = {("NP2.4", "bin"): (3, 2, 150), ("NP2.4", "cbin"): (2, 2, 150), ("NP2.4", "meta-shorter"): (2, 1, 150),
-                                   ("NP2.1", "bin"): (3, 2, 200)}.get((kind, source), (2, 1, None))
+            depth, faults_, cap = {("NP2.4", "bin"): (3, 2, 60), ("NP2.4", "cbin"): (2, 2, 100), ("NP2.4", "meta-shorter"): (2, 1, 100),
+                                   ("NP2.1", "bin"): (3, 2, 120)}.get((kind, source), (2, 1, None))
         model = ConvModel(kind, tier, source, apbase)
         if kind == "NP1":
             depth, faults_, cap = 2, 1, None
@@ -491,7 +491,7 @@ CHECK = {
         "Python buffers is flushed when the dead converter is collected (only affects files that are incomplete outputs anyway)",
         "quick: histories of length <= 2 with <= 1 crash (length 1 for the longer-than-declared original), 4 option sets x overwrite, a run aimed at an already split shank file, "
         "and pairs of process() calls on one converter object; thorough: NP2.4 length <= 3 with <= 2 crashes, the other variants length 2, all 8 option triples, "
-        "frontier capped at 150-200 states per level (reported in caps_hit)",
+        "frontier capped at 60-120 states per level (reported in caps_hit); I/O-error faults at the first two levels",
         "a status-0 run on a directory left by an interrupted run may create the missing shank folders with empty files: recorded as an observation, not asserted "
         "(the property speaks of a repeated run after a completed one)",
         "mtscomp runs single-threaded (sequential pool) so that chunk order is program order",
